@@ -423,7 +423,7 @@ class Model:
             # one-to-one: the parent's previous partner is displaced
             for c2 in self.children(link, p):
                 if c2 != c:
-                    if via == "m2o":
+                    if via == "m2o" or getattr(self, "_merging", False):
                         self.taint.add("f5")  # the library leaves the displaced child's own attribute untouched
                     self._set_parent(link, c2, None, via)
         if p is not None:
@@ -465,6 +465,8 @@ class Model:
             # one-to-one from the parent side: displaces the previous child
             for c in self.children(r, x):
                 if c != y:
+                    if getattr(self, "_merging", False):
+                        self.taint.add("f5")
                     self._set_parent(r, c, None, "o2m")
             if y is not None:
                 self._set_parent(r, y, x, "o2m")
@@ -543,7 +545,11 @@ class Model:
                     # the backref fills a scalar reverse side on the copy; a collection reverse side of a transient
                     # copy only gets a queued append and does not count as present on the source
                     src[t][back] = x
-        return self._merge_one(x, src, {})
+        self._merging = True
+        try:
+            return self._merge_one(x, src, {})
+        finally:
+            self._merging = False
 
     def _merge_one(self, n, src, memo):
         if n in memo:
@@ -910,6 +916,7 @@ class Model:
         m.open = False
         if warn_dead:
             m.dead = warn_dead
+            open_ = True  # "not in session ... will not proceed": what the flush writes for that object is not predicted
         m.soft = {k for k in m.soft if k in m.deparented}
         return dict(post=m, stale_cands=stale_cands, mixed_switch=mixed_switch, may_err=may_err, union_cycle=self._union_cycle(self.rows, rows), error=bool(bad or alt_err or open_ or may_err),
                     must_error=bool(bad or alt_err) and not open_, open=open_, why=(m._violations(rows, assoc, at_commit) or ("duplicate key" if dup else None) or ("pending child of deleted parent" if alt_err else None)))
